@@ -491,6 +491,63 @@ def acyclic(pairs):
 
 
 # ------------------------------------------------------------------ run the real code
+def build_dec(c, extra):
+    """a FRESH decorator object for the configuration (deterministic: every call builds an equal one)"""
+    import numpy as np
+    from mystic import constraints as C, tools as T
+    op = c["op"]
+    if op == "discrete":
+        dec = C.discrete(list(c["samples"]), index=c["index"])
+    elif op == "integers":
+        ints = {"float": float, "True": True, "int": int, "False": False}[c["ints"]]
+        dec = C.integers(ints=ints, index=c["index"])
+    elif op == "rounded":
+        dec = C.rounded(digits=c["digits"], index=c["index"])
+    elif op == "precision":
+        dec = C.precision(digits=c["digits"], index=c["index"])
+    elif op == "bounds":
+        if c["form"] == "plain":
+            ivs = c["ivs"]
+            b = ivs[0] if (len(ivs) == 1 and c.get("single_form")) else ivs
+            dec = C.impose_bounds(b, index=c["index"])
+        else:
+            d = {k: (v[0] if len(v) == 1 else v) for k, v in c["dict"].items()}
+            dec = C.impose_bounds(d, index=c["index"])
+    elif op == "sorting":
+        dec = C.sorting(ascending=c["asc"], outer=c["outer"], index=c["index"])
+    elif op == "monotonic":
+        dec = C.monotonic(ascending=c["asc"], outer=c["outer"], index=c["index"])
+    elif op == "at":
+        dec = C.impose_at(list(c["index"]), c["target"] if "target" in c else list(c["targets"]))
+    elif op == "as":
+        m = list(c["mask"])
+        dec = C.impose_as(m) if c["offset"] is None else C.impose_as(m, c["offset"])
+    elif op == "partial":
+        dec = T.partial(dict(c["mask"]))
+    elif op == "sync":
+        dec = T.synchronized(dict(c["mask"]))
+    elif op == "clipped":
+        dec = T.clipped(c["lo"], c["hi"], exit=c["exit"])
+    elif op == "suppress":
+        dec = T.suppressed(c["tol"], exit=c["exit"], clip=c["clip"])
+    elif op == "masked":
+        dec = T.masked(dict(c["mask"]))
+    elif op == "mean":
+        dec = C.with_mean(c["target"])
+    elif op == "spread":
+        dec = C.with_spread(c["target"])
+    elif op == "norm":
+        dec = C.normalized(c["target"])
+    elif op == "var":
+        if c.get("std"):
+            sd = -math.sqrt(c["target"]) if c.get("sneg") else math.sqrt(c["target"])
+            dec = C.with_std(sd)
+            extra["v"] = sd ** 2
+        else:
+            dec = C.with_variance(c["target"])
+    return dec
+
+
 def run_impl(c, rng):
     """returns (result: list of floats | ('err', enum), extra dict recorded from the run)"""
     import numpy as np
@@ -519,24 +576,7 @@ def run_impl(c, rng):
         finally:
             signal.setitimer(signal.ITIMER_REAL, 0)
             signal.signal(signal.SIGALRM, old)
-    if op == "discrete":
-        dec = C.discrete(list(c["samples"]), index=c["index"])
-    elif op == "integers":
-        ints = {"float": float, "True": True, "int": int, "False": False}[c["ints"]]
-        dec = C.integers(ints=ints, index=c["index"])
-    elif op == "rounded":
-        dec = C.rounded(digits=c["digits"], index=c["index"])
-    elif op == "precision":
-        dec = C.precision(digits=c["digits"], index=c["index"])
-    elif op == "bounds":
-        if c["form"] == "plain":
-            ivs = c["ivs"]
-            b = ivs[0] if (len(ivs) == 1 and rng.random() < 0.6) else ivs
-            dec = C.impose_bounds(b, index=c["index"])
-        else:
-            d = {k: (v[0] if len(v) == 1 else v) for k, v in c["dict"].items()}
-            dec = C.impose_bounds(d, index=c["index"])
-    elif op == "bounded":
+    if op == "bounded":
         picks = []; draws = []
 
         def choice(a, size=None):
@@ -587,38 +627,9 @@ def run_impl(c, rng):
                 return C.unique(v, list(c["full"])) if c["via"] == "unique" else C.impose_unique(list(c["full"]))(ident)(v)
         extra["g"] = again
         return r, extra
-    elif op == "sorting":
-        dec = C.sorting(ascending=c["asc"], outer=c["outer"], index=c["index"])
-    elif op == "monotonic":
-        dec = C.monotonic(ascending=c["asc"], outer=c["outer"], index=c["index"])
-    elif op == "at":
-        dec = C.impose_at(list(c["index"]), c["target"] if "target" in c else list(c["targets"]))
-    elif op == "as":
-        m = list(c["mask"])
-        dec = C.impose_as(m) if c["offset"] is None else C.impose_as(m, c["offset"])
-    elif op == "partial":
-        dec = T.partial(dict(c["mask"]))
-    elif op == "sync":
-        dec = T.synchronized(dict(c["mask"]))
-    elif op == "clipped":
-        dec = T.clipped(c["lo"], c["hi"], exit=c["exit"])
-    elif op == "suppress":
-        dec = T.suppressed(c["tol"], exit=c["exit"], clip=c["clip"])
-    elif op == "masked":
-        dec = T.masked(dict(c["mask"]))
-    elif op == "mean":
-        dec = C.with_mean(c["target"])
-    elif op == "spread":
-        dec = C.with_spread(c["target"])
-    elif op == "norm":
-        dec = C.normalized(c["target"])
-    elif op == "var":
-        if c.get("std"):
-            sd = -math.sqrt(c["target"]) if c.get("sneg") else math.sqrt(c["target"])
-            dec = C.with_std(sd)
-            extra["v"] = sd ** 2
-        else:
-            dec = C.with_variance(c["target"])
+    if op == "bounds" and "single_form" not in c:
+        c["single_form"] = rng.random() < 0.6               # impose_bounds((lo, hi)) or impose_bounds([(lo, hi)])
+    dec = build_dec(c, extra)
     f = dec(ident)
     extra["f"] = f
     return call(f), extra
@@ -916,6 +927,13 @@ def monitor(c, res, extra):
                 bad(key, "selected entry %d (index %d) = %r is outside %r" % (k, i, y[k], ivs)); break
             if mode in ("near", "pick") and not any(y[k] in (lo, hi) for lo, hi in ivn):
                 bad(name + "/clip-at-end", "entry %d: %r clipped to %r which is not an interval end" % (k, x[k], y[k])); break
+            if mode == "randnear" and isfin(x[k]):
+                # nearest=True: the entry is re-drawn in an interval no other interval has a nearer end than (l.1240)
+                lim = [(max(lo, -1e300), min(hi, 1e300)) for lo, hi in ivn]
+                dist = lambda iv: min(abs(x[k] - iv[0]), abs(x[k] - iv[1]))
+                dmin = min(dist(iv) for iv in lim)
+                if not any(lo - slack <= y[k] <= hi + slack and dist((lo, hi)) == dmin for lo, hi in lim):
+                    bad(name + "/nearest-interval", "entry %d: %r was re-drawn to %r, not inside an interval with the nearest end of %r" % (k, x[k], y[k], ivs)); break
         if op == "bounds":
             idem(extra["f"], name + "/idempotent")
     elif op == "unique":
@@ -1024,18 +1042,27 @@ def monitor(c, res, extra):
             if w is not None and s is not None:
                 tgt.setdefault(w, []).append((s, j[1] if isinstance(j, tuple) else None))
         frame(set(tgt), "synchronized/frame")
-        srcs = set(s for v in tgt.values() for s, _ in v)
-        if not (srcs & set(tgt)) or all(len(v) == 1 and v[0][0] == w for w, v in tgt.items()):
-            for w, v in tgt.items():
-                if len(v) != 1 or w in srcs:
+        # theorem synchronized_tied: when no tracked index addresses a slot that a key addresses (the docstring's "keys and
+        # values should be different"), every addressed entry holds what the LAST mask entry for its slot reads from the
+        # ORIGINAL input; an entry whose key or tracked index is out of range is skipped
+        keyslots = set(wrap(n, i) for i in m) - {None}
+        srcslots = set(wrap(n, j[0] if isinstance(j, tuple) else j) for j in m.values()) - {None}
+        if not (keyslots & srcslots):
+            exp = list(x); lastform = {}
+            for i, j in m.items():
+                w = wrap(n, i)
+                j0, sc = (j[0], j[1]) if isinstance(j, tuple) else (j, None)
+                s_ = wrap(n, j0)
+                if w is None or s_ is None:
                     continue
-                s, sc = v[0]
-                want = x[s] if sc is None else sc * x[s]
-                if want != want:
-                    continue
-                if not (same_float(y[w], want) or y[w] == want):
-                    key = "synchronized/scaled-entry-ignored/ndarray-input" if (sc is not None and c["kind"] == "array" and same_float(y[w], x[w])) else "synchronized/in-target"
-                    bad(key, "entry %d is %r, tracked value %r" % (w, y[w], want)); break
+                exp[w] = x[s_] if sc is None else sc * x[s_]
+                lastform[w] = sc
+            for w in sorted(lastform):
+                if not (same_float(y[w], exp[w]) or y[w] == exp[w]):
+                    sc = lastform[w]
+                    key = "synchronized/scaled-entry-ignored/ndarray-input" if (sc is not None and c["kind"] == "array") else "synchronized/in-target"
+                    bad(key, "entry %d is %r, tracked value %r" % (w, y[w], exp[w])); break
+            idem(extra["f"], "synchronized/idempotent")
     elif op == "clipped":
         lo = -INF if c["lo"] is None else c["lo"]; hi = INF if c["hi"] is None else c["hi"]
         if lo <= hi:
@@ -1188,7 +1215,9 @@ def alias_monitor(c, res, extra):
         return out, "aliased"
     try:
         y2 = tolist(f(buf))
-        fresh = tolist(f(mk(x2)))
+        # the reference comes from a decorator built anew from the configuration: state kept between the calls of one
+        # decorated function (or in the decorator's closure) cannot reach it
+        fresh = tolist(f(mk(x2)) if extra.get("g") else build_dec(c, {})(ident)(mk(x2)))
     except Exception:
         return out, "second-call-raises"
     if not same_vec(tolist(y1), snap1):
@@ -1238,6 +1267,14 @@ def clause_tags(c, res):
         tags.append("masked:" + ("keyerror" if not ok else ("empty" if not ks else ("sorted-listing" if ks == sorted(ks) else "unsorted-listing"))))
         if ok and ks and max(ks) == n + len(m) - 1:
             tags.append("masked:largest-admissible-key")
+    elif op == "sync" and ok:
+        m = c["mask"]
+        keyslots = set(wrap(n, i) for i in m) - {None}
+        srcslots = set(wrap(n, j[0] if isinstance(j, tuple) else j) for j in m.values()) - {None}
+        if keyslots:
+            tags.append("sync:" + ("keys-and-tracked-disjoint" if not (keyslots & srcslots) else "order-dependent-mask"))
+            if len(keyslots) < len([i for i in m if wrap(n, i) is not None]):
+                tags.append("sync:slot-addressed-twice")
     elif op == "spread" and ok and n:
         t = c["target"]
         tags.append("spread:" + ("constant" if max(x) == min(x) else ("negative-target" if t < 0 else ("target-0" if t == 0 else "regular"))))
